@@ -448,7 +448,8 @@ pub fn struct_hash(cli: &CliT) -> u64 {
     let h = cli.__verif_history().__verif_struct_hash();
     #[cfg(not(feature = "history"))]
     let h = 0u64;
-    e ^ h.rotate_left(17)
+    let d = cli.__verif_input_generator().map(|g| g.__verif_canonical_hash()).unwrap_or(0);
+    e ^ h.rotate_left(17) ^ d.rotate_left(34)
 }
 
 /// Canonical key of a session (DESIGN 3.2)
@@ -463,7 +464,8 @@ pub struct SKey {
     pub tline: String,
     pub tcol: usize,
     pub pend: u8,
-    /// hash over every field of the real `Editor` and `History` structs (buffers contribute their size only):
+    /// hash over every field of the real `Editor`, `History` and `InputGenerator` structs (buffers contribute their
+    /// size only, dead decoder bytes are zeroed first):
     /// a field added to them by a change is part of the key without the harness knowing its name
     pub shash: u64,
     /// optional refinement: hash of the one-step behaviour (per event: results, sink bytes, handler
